@@ -228,6 +228,8 @@ class SimAsyncTransport(_Conn, asyncio.Transport):
             return
         self._closing = True
         self.is_open = False
+        self.closed_at = self.sim.now
+        self.close_exc = exc
         self.sim.ev("conn_close", self.conn_id)
         self._loop.call_soon(self._call_connection_lost, exc)
 
